@@ -203,7 +203,7 @@ pub fn run_case(rng: &mut Rng) -> CaseOut {
     let mut out = CaseOut::default();
     let lang = &LSYM;
     let ns = rng.range(2, 3);
-    let ops: Vec<&'static str> = vec!["f", "g", "h", "k", "var", "c", "d", "e", "u", "w", "app", "pair", "lam", "sum", "let", "idx", "bb", "ite", "sb"];
+    let ops: Vec<&'static str> = vec!["f", "g", "h", "k", "var", "c", "d", "e", "u", "w", "app", "pair", "lam", "sum", "let", "idx", "bb", "ite", "sb", "bsl"];
     let cfg = GenCfg { lang, ops, ns, max_depth: 2, max_names: 4, shadow: rng.chance(1, 3) };
     let mut h = gen_history(rng, &cfg, 6, 5);
     // cost race in a sparsely populated e-graph: few leaves, a wide or deep "bystander" term over one leaf (the only other entry of the
